@@ -111,9 +111,22 @@ func (o *c19Out) add(what string, r esc.Range, doc *c19Doc, node *yaml.Node) {
 	o.ranges = append(o.ranges, m)
 }
 
+// addAcc records the range of an accessor together with what the accessor is (key or index), so that the text
+// under the range can be compared with the accessor's own spelling.
+func (o *c19Out) addAcc(a esc.Accessor, doc *c19Doc, node *yaml.Node) {
+	o.add("acc", a.Range, doc, node)
+	m := o.ranges[len(o.ranges)-1]
+	switch {
+	case a.Key != nil:
+		m["key"] = hex.EncodeToString([]byte(*a.Key))
+	case a.Index != nil:
+		m["index"] = *a.Index
+	}
+}
+
 func (o *c19Out) walkAccessors(accs []esc.PropertyAccessor, doc *c19Doc, node *yaml.Node) {
 	for _, a := range accs {
-		o.add("acc", a.Accessor.Range, doc, node)
+		o.addAcc(a.Accessor, doc, node)
 		o.add("accval", a.Value, nil, nil)
 	}
 }
@@ -141,7 +154,7 @@ func (o *c19Out) walkExpr(ex esc.Expr, doc *c19Doc, node *yaml.Node, path []any)
 	if ex.Access != nil {
 		o.add("recv", ex.Access.Receiver, nil, nil)
 		for _, a := range ex.Access.Accessors {
-			o.add("acc", a.Range, doc, node)
+			o.addAcc(a, doc, node)
 		}
 	}
 	for i, el := range ex.List {
